@@ -65,6 +65,7 @@ def strategy(tier):
         "body": st.sampled_from(["", "", "abc"]),
         # the same request is sent 1-3 times on one connection (keep-alive workers serve them all); a body may travel chunked, with trailers
         "times": st.sampled_from([1, 1, 2, 3]),
+        "listener": st.sampled_from(["tcp", "tcp", "unix", "tcp6"]),       # what the connection's listener is bound to
         "chunked": st.sampled_from([None, None, "plain", "trailers"]),
         # Expect: 100-continue at a drawn position among the headers; the interim response may fail to be sent (client gone)
         "expect": st.one_of(st.none(), st.none(), st.tuples(st.integers(0, 6), st.sampled_from(["ok", "send-fails", "send-fails"])).map(list)),
@@ -207,6 +208,7 @@ def run_case(case):
     app = wenv.AppProgram(prog)
     cfg = wenv.make_cfg(keepalive=2, worker_connections=10, threads=2)
     env = wenv.Env(case["kind"], cfg, app)
+    env.listener = wenv.FakeListener({"unix": "/run/verif/gunicorn.sock", "tcp6": ("::1", 8000, 0, 0)}.get(case.get("listener"), ("127.0.0.1", 8000)))
     sock = wenv.FakeSocket([raw], send_fault=(0, 32) if ex and ex[1] == "send-fails" else None)
     try:
         if sn and sn[0] == "env":
